@@ -7,6 +7,16 @@ import datetime
 
 from simverif import corpus
 
+class SenderRejected(Exception):
+    """The library composed 20 units in a row that its own parser does not accept whole (or could not
+    construct / compose them at all): the sender of this channel is unusable on the tree under test."""
+
+    def __init__(self, channel, errors):
+        super(SenderRejected, self).__init__('channel %s: %s' % (channel, sorted(set(errors))))
+        self.channel = channel
+        self.errors = sorted(set(errors))
+
+
 _SIZES = (0, 1, 2, 3, 4, 5, 7, 8, 15, 16, 31, 32, 33, 63, 64, 127, 128, 255, 256, 257, 300, 511, 1024)
 
 
@@ -197,16 +207,18 @@ def handshake_message(rng, discards=None, validate=True):
         return _handshake_message(rng)
     from cryptoparser.tls.subprotocol import TlsHandshakeMessageVariant
     from simverif import core
+    errors = []
     for _ in range(20):
-        raw = _handshake_message(rng)
         try:
+            raw = _handshake_message(rng)
             TlsHandshakeMessageVariant.parse_exact_size(raw)
         except Exception as exc:  # pylint: disable=broad-except
+            errors.append(type(exc).__name__)
             if discards is not None:
                 discards.append(type(exc).__name__)
             continue
         return raw
-    raise core.HarnessError('sender produced no handshake message its own parser accepts')
+    raise SenderRejected('tls_handshake', errors)
 
 
 # ---------------------------------------------------------------- framing units
@@ -408,16 +420,18 @@ class Channel(object):
         discrepancy: it is counted and not sent."""
         from simverif import core
         cls = core.get_class(self.cls_path)
+        errors = []
         for _ in range(20):
-            raw = self._make(rng)
             try:
+                raw = self._make(rng)
                 cls.parse_exact_size(raw)
             except Exception as exc:  # pylint: disable=broad-except
+                errors.append(type(exc).__name__)
                 if discards is not None:
                     discards.append(type(exc).__name__)
                 continue
             return raw
-        raise core.HarnessError('channel %s: sender produced no unit its own parser accepts' % self.name)
+        raise SenderRejected(self.name, errors)
 
 
 P_ = 'cryptoparser.'
